@@ -184,16 +184,45 @@ def build_ocaml_core():
     return drv
 
 
+def crate_dir(crate):
+    """The harness crates depend on salsa by path /repo.  When VERIF_REPO points elsewhere
+    (e.g. a scratch worktree with a seeded change, so that /repo itself is never touched while
+    other work builds against it) a copy of the crate with the path rewritten is used."""
+    src = os.path.join(ROOT, crate)
+    if REPO == "/repo":
+        return src
+    import shutil
+    tag = hashlib.sha256(REPO.encode()).hexdigest()[:8]
+    dst = os.path.join(BUILD, "alt", tag, crate)
+    if os.path.exists(dst):
+        shutil.rmtree(dst)
+    shutil.copytree(src, dst, ignore=shutil.ignore_patterns("target"))
+    for d, _, files in os.walk(dst):
+        for f in files:
+            if f == "Cargo.toml":
+                pth = os.path.join(d, f)
+                t = open(pth).read().replace('path = "/repo"', 'path = "%s"' % REPO)
+                open(pth, "w").write(t)
+    return dst
+
+
+def target_dir(name):
+    if REPO == "/repo":
+        return os.path.join(BUILD, f"target-{name}")
+    tag = hashlib.sha256(REPO.encode()).hexdigest()[:8]
+    return os.path.join(BUILD, "alt", tag, f"target-{name}")
+
+
 def cargo_build(crate="harness", target="default", features=None, bins=None, timeout=2400):
-    """Build a harness crate against /repo's current working tree with the hook cfg on."""
-    cdir = os.path.join(ROOT, crate)
+    """Build a harness crate against the repository's current working tree with the hook cfg on."""
+    cdir = crate_dir(crate)
     for f in ("Cargo.lock", "rust-toolchain.toml"):
         src = os.path.join(REPO, f)
         dst = os.path.join(cdir, f)
         if os.path.exists(src) and (not os.path.exists(dst)):
             import shutil
             shutil.copy(src, dst)
-    tdir = os.path.join(BUILD, f"target-{target}")
+    tdir = target_dir(target)
     cmd = ["cargo", "build", "--offline", "--release"]
     if features:
         cmd += ["--features", ",".join(features)]
@@ -273,7 +302,7 @@ class Ctx:
         }
         if self.known:
             ev["coverage"]["known_findings_met"] = self.known
-        d = os.path.join(ROOT, "evidence")
+        d = os.environ.get("VERIF_EVIDENCE_DIR") or os.path.join(ROOT, "evidence")  # seeded-defect runs write elsewhere
         os.makedirs(d, exist_ok=True)
         with open(os.path.join(d, f"{self.prop}.json"), "w") as f:
             json.dump(ev, f, indent=1)
